@@ -456,6 +456,8 @@ func (e *Engine) verifyFunc(fn *ssa.Function, con *Contract) *FnCtx {
 		entryVals: map[*ssa.Parameter]Val{}, entryFrees: map[*ssa.FreeVar]Val{}}
 	c.quantHeavy = con != nil && con.Arith2 == "heapwf"
 	c.usesLock = con != nil && con.Locked
+	c.cellsMode = con != nil && con.Cells
+	c.useLines = con != nil && con.Lines
 	c.checked = con != nil && con.Arith == "checked"
 	if fn.Blocks == nil {
 		c.unsup["no body"] = true
